@@ -1,8 +1,266 @@
 import GceTcb.Base.Line
-/- Driver handler for stream `c01` (stub: replaced when the property's model lands). -/
-namespace GceTcb.Drive.C01
-open GceTcb
+import GceTcb.Model.Verify
+/-
+Driver handler for stream `c01`.
 
-def handle (_f : Fields) : String := "unimplemented"
+One case = one small "world": up to a few endorsements, each described by the primitive facts the
+harness computed INDEPENDENTLY of the code under test (proto.Unmarshal, x509.ParseCertificate,
+Certificate.Verify against the case's roots at the case's time, rsa.VerifyPSS with explicit options …),
+plus the plumbing of the entry point (which bytes / options / files / getter responses the call gets).
+The handler instantiates `Prims` from those facts, runs the model's entry point, prints accept/reject/panic.
+
+Byte strings are synthetic names: container of endorsement i = [E0,i], its payload = [A0,i], its
+signature = [5A,i], its certificate = [C0,i] (or empty), garbage container = [BA,D0], root file = [52],
+unparsable root file = [BD], attestation file = [A7].  The model can only succeed by handing exactly the
+payload name to both `unmarshalGolden` and `checkSigPss256`, and the caller's roots/time to `verifyChain`.
+-/
+namespace GceTcb.Drive.C01
+open GceTcb GceTcb.Verify
+
+def byteOf (n : Nat) : UInt8 := UInt8.ofNat n
+
+def containerOf (i : Nat) : Bytes := [0xE0, byteOf i]
+def payloadOf (i : Nat) : Bytes := [0xA0, byteOf i]
+def signatureOf (i : Nat) : Bytes := [0x5A, byteOf i]
+def certOf (i : Nat) : Bytes := [0xC0, byteOf i]
+def garbage : Bytes := [0xBA, 0xD0]
+def rootBytes : Bytes := [0x52]
+def badRootBytes : Bytes := [0xBD]
+def attBytes : Bytes := [0xA7]
+
+def parseTs (s : String) : Option Timestamp :=
+  match s.splitOn ":" with
+  | [a, b] => some ⟨a.toInt?.getD 0, b.toInt?.getD 0⟩
+  | _ => none
+
+def parseMeasList (s : String) : List (Nat × Bytes) :=
+  if s == "" then [] else
+  (s.splitOn ",").filterMap fun t =>
+    match t.splitOn ":" with
+    | [k, h] => some (k.toNat?.getD 0, (hexDecode h).getD [])
+    | _ => none
+
+/-- `-` = absent; `<svsmhex>/<k>:<hex>,…` -/
+def parseSnp (s : String) : Option SevSnp :=
+  if s == "-" || s == "" then none else
+  match s.splitOn "/" with
+  | [sv, ms] => some ⟨(hexDecode sv).getD [], parseMeasList ms⟩
+  | _ => none
+
+/-- facts of endorsement `i` -/
+structure EFacts where
+  ser : Bool        -- its container bytes unmarshal
+  golden : Option Golden
+  parse : Bool
+  chain : Bool
+  sig : Bool
+  sevVopts : Bool   -- SevPolicy + PolicyToOptions succeed
+  snpBase : Bool    -- validate.SnpAttestation without the certificate-table validators succeeds
+  tdxVopts : Bool
+  tdxQuote : Bool
+
+def eFacts (f : Fields) (i : Nat) : EFacts :=
+  let k := fun (s : String) => s!"e{i}.{s}"
+  let g : Option Golden :=
+    if f.bool (k "g") then
+      some { timestamp := parseTs (f.get (k "ts")), clSpec := f.nat (k "cl"),
+             commit := List.replicate (f.nat (k "cm")) 0,
+             cert := if f.bool (k "c") then certOf i else [],
+             digest := f.bytes (k "d"), sevSnp := parseSnp (f.get (k "snp")),
+             tdx := if f.bool (k "tdx") then some ⟨[]⟩ else none, other := [] }
+    else none
+  { ser := f.bool (k "ser"), golden := g, parse := f.bool (k "p"), chain := f.bool (k "ch"),
+    sig := f.bool (k "s"), sevVopts := f.bool (k "pol"), snpBase := f.bool (k "base"),
+    tdxVopts := f.bool (k "tpol"), tdxQuote := f.bool (k "quote") }
+
+/-- index of a synthetic name with the given prefix -/
+def idxOf (pfx : UInt8) (b : Bytes) : Option Nat :=
+  match b with
+  | [p, i] => if p == pfx then some i.toNat else none
+  | _ => none
+
+abbrev Cert := Nat
+abbrev Roots := String
+abbrev Time := String
+
+def mkPrims (f : Fields) : Prims Cert Roots Time :=
+  let n := f.nat "ne"
+  let facts : Nat → Option EFacts := fun i => if i < n then some (eFacts f i) else none
+  { unmarshalEndorsement := fun b =>
+      if b.isEmpty then some ⟨[], []⟩      -- protobuf: empty input is the empty message
+      else match idxOf 0xE0 b with
+        | some i => match facts i with
+          | some x => if x.ser then some ⟨payloadOf i, signatureOf i⟩ else none
+          | none => none
+        | none => none
+    unmarshalGolden := fun b =>
+      if b.isEmpty then some Golden.empty
+      else match idxOf 0xA0 b with
+        | some i => (facts i).bind (·.golden)
+        | none => none
+    timeFromNil := if f.get "nilts" == "panic" then none else some ⟨0, 0⟩
+    parseCert := fun b =>
+      match idxOf 0xC0 b with
+      | some i => match facts i with
+        | some x => if x.parse then some i else none
+        | none => none
+      | none => none
+    verifyChain := fun c r t =>
+      r == "R" && t == "T" && (match facts c with | some x => x.chain | none => false)
+    checkSigPss256 := fun c m s =>
+      m == payloadOf c && s == signatureOf c && (match facts c with | some x => x.sig | none => false)
+    objectURL := fun fam m => fam ++ ":" ++ hexEncode m
+    loadRootPool := fun b => if b == rootBytes then some "R" else none
+    sevPolicyOptions := fun e vmsas ow base =>
+      -- the facts were computed for this case's (vmsas, overwrite, base); any other request fails
+      if vmsas == f.nat "vmsas" && ow == f.bool "overwrite" && base == 0 then
+        match idxOf 0xA0 e.payload with
+        | some i => match facts i with
+          | some x => if x.sevVopts then some (i + 1) else none
+          | none => none
+        | none => none
+      else none
+    snpBaseChecks := fun tag vo =>
+      tag == 1 && (match facts (vo - 1) with | some x => vo != 0 && x.snpBase | none => false)
+    tdxPolicyOptions := fun e ram ow base =>
+      if ram == 0 && ow == f.bool "overwrite" && base == 0 then
+        match idxOf 0xA0 e.payload with
+        | some i => match facts i with
+          | some x => if x.tdxVopts then some (i + 1) else none
+          | none => none
+        | none => none
+      else none
+    tdxQuoteChecks := fun tag vo =>
+      tag == 1 && (match facts (vo - 1) with | some x => vo != 0 && x.tdxQuote | none => false)
+    tdxExtractEndorsement := fun _ => none }
+
+/-- a reference to container bytes: `-` absent, `empty`, `garbage`, or an endorsement index -/
+def refBytes (s : String) : Option Bytes :=
+  if s == "-" || s == "" then none
+  else if s == "empty" then some []
+  else if s == "garbage" then some garbage
+  else some (containerOf (s.toNat?.getD 0))
+
+/-- a reference to an already unmarshalled endorsement (options that take the proto message) -/
+def refEndorsement (s : String) : Option Endorsement :=
+  if s == "-" || s == "" then none
+  else if s == "empty" then some ⟨[], []⟩
+  else let i := s.toNat?.getD 0; some ⟨payloadOf i, signatureOf i⟩
+
+/-- `getter=nil|fail|<ref>` answering only the URL named by `geturl=<family>:<hex measurement>` -/
+def mkGetter (f : Fields) (extra : String → Option Bytes := fun _ => none) : Option Getter :=
+  let g := f.get "getter"
+  if g == "nil" || g == "" then none
+  else some fun url =>
+    if url == f.get "geturl" then (if g == "fail" then none else refBytes g)
+    else extra url
+
+def parseSnpo (s : String) : Option SNPOptions :=
+  if s == "-" || s == "" then none else
+  match s.splitOn ":" with
+  | [v, m] => some ⟨if m == "nil" then none else some ((hexDecode m).getD []), v.toNat?.getD 0⟩
+  | _ => none
+
+def mkOptions (f : Fields) : Options Roots Time :=
+  { snp := parseSnpo (f.get "snpo"),
+    roots := if f.get "roots" == "nil" then none else some "R",
+    expectedUefiSha384 := f.bytes "exp",
+    now := "T",
+    endorsement := refEndorsement (f.get "optE"),
+    getter := mkGetter f }
+
+def parseExtras (s : String) : List (String × Bytes) :=
+  if s == "" || s == "-" then [] else
+  (s.splitOn ",").filterMap fun t =>
+    match t.splitOn ":" with
+    | [k, r] => (refBytes r).map fun b => (k, b)
+    | _ => none
+
+def mkAttestation (f : Fields) : Option Attestation :=
+  let a := f.get "att"
+  if a == "nil" then none
+  else some ⟨1, (hexDecode a).getD [], parseExtras (f.get "extras")⟩
+
+def mkParse (f : Fields) : Bytes → Option TeeAttestation := fun b =>
+  if b != attBytes then none else
+  match f.get "attparse" with
+  | "sev" => (mkAttestation f).map .sevSnp
+  | "tdx" => some (.tdx 1)
+  | "other" => some .other
+  | _ => none
+
+def mkBackend (f : Fields) : Backend Time :=
+  let rootGet : String → Option Bytes := fun url =>
+    if url == defaultRootURL then
+      match f.get "rootget" with
+      | "ok" => some rootBytes
+      | "bad" => some badRootBytes
+      | _ => none
+    else none
+  { readFile := fun p =>
+      if p == "att" then (if f.get "attfile" == "ok" then some attBytes else none)
+      else if p == "endorsement" then refBytes (f.get "efile")
+      else if p == "root" then
+        match f.get "rootfile" with
+        | "ok" => some rootBytes
+        | "bad" => some badRootBytes
+        | _ => none
+      else none
+    getter :=
+      if f.get "rootget" == "nil" && (f.get "getter" == "nil" || f.get "getter" == "") then none
+      else some fun url =>
+        match (mkGetter f).bind (· url) with
+        | some b => some b
+        | none => rootGet url
+    now := "T" }
+
+def showRes : Res → String
+  | .ok _ => "accept"
+  | .err _ => "reject"
+  | .panic _ => "panic"
+
+def handle (f : Fields) : String :=
+  let P := mkPrims f
+  match f.get "op" with
+  | "run" =>
+    match f.get "ep" with
+    | "endorsement" =>
+      showRes (run P .endorsement ((refBytes (f.get "ser")).getD [], mkOptions f))
+    | "proto" =>
+      match refEndorsement (f.get "e") with
+      | some e => showRes (run P .endorsementProto (e, mkOptions f))
+      | none => "bad-op"
+    | "closure" =>
+      let i : ClosureInput Roots Time := ⟨f.get "fam", mkOptions f, mkAttestation f, refBytes (f.get "ser")⟩
+      match refEndorsement (f.get "optE") with
+      | some e => showRes (run P .snpClosurePre (i, e))
+      | none => showRes (run P .snpClosure i)
+    | "sev" =>
+      showRes (run P .sevValidate (mkAttestation f,
+        { endorsement := refEndorsement (f.get "optE"), basePolicy := 0, overwrite := f.bool "overwrite",
+          roots := if f.get "roots" == "nil" then none else some "R", now := "T", getter := mkGetter f,
+          expectedLaunchVmsas := f.nat "vmsas", testonlyForceGCS := f.bool "force" }))
+    | "tdx" =>
+      showRes (run P .tdxValidate (mkParse f, attBytes,
+        { endorsement := refEndorsement (f.get "optE"), basePolicy := 0, overwrite := f.bool "overwrite",
+          roots := if f.get "roots" == "nil" then none else some "R", now := "T", expectedRAMGiB := 0 }))
+    | "cliverify" =>
+      showRes (run P .cliVerify (mkBackend f, "endorsement", if f.bool "rootarg" then "root" else ""))
+    | "clisev" =>
+      showRes (run P .cliSevValidate (mkParse f, mkBackend f,
+        { attestationPath := "att", endorsementPath := if f.get "efile" == "-" then "" else "endorsement",
+          root := if f.bool "rootarg" then "root" else "", basePolicy := 0, overwrite := f.bool "overwrite",
+          testonlyForceGCS := f.bool "force" }))
+    | "clitdx" =>
+      showRes (run P .cliTdxValidate (mkParse f, mkBackend f,
+        { attestationPath := "att", endorsementPath := if f.get "efile" == "-" then "" else "endorsement",
+          root := if f.bool "rootarg" then "root" else "", basePolicy := 0, overwrite := f.bool "overwrite",
+          testonlyForceGCS := false }))
+    | "ops" =>
+      -- sign/ops.VerifySignatureFromCA: certificate 0, pool "R", facts e0.ch / e0.s
+      showRes (opsVerifySignatureFromCA P (if f.bool "cert" then some 0 else none)
+        (if f.bool "pool" then some "R" else none) "T" (payloadOf 0) (signatureOf 0))
+    | _ => "bad-op"
+  | _ => "bad-op"
 
 end GceTcb.Drive.C01
